@@ -588,6 +588,30 @@ func (ctx Ctx) methodExpr(call *ast.CallExpr) coq.Expr {
 			}
 			return ctx.newCoqCall("StringFromBytes", args)
 		}
+		// the same conversions spelled through a named type or parentheses
+		// ((string)(b), Name(b), []byte(named)) change the representation too;
+		// any other conversion between a string and a non-string ([]rune(s),
+		// string of an integer) has no GooseLang counterpart
+		toTy := ctx.typeOf(call.Fun).Underlying()
+		fromTy := ctx.typeOf(args[0]).Underlying()
+		if isString(toTy) != isString(fromTy) {
+			byteSlice := func(t types.Type) bool {
+				if s, ok := t.(*types.Slice); ok {
+					b, ok := s.Elem().Underlying().(*types.Basic)
+					return ok && b.Kind() == types.Uint8
+				}
+				return false
+			}
+			switch {
+			case isString(toTy) && byteSlice(fromTy):
+				return ctx.newCoqCall("StringFromBytes", args)
+			case isString(fromTy) && byteSlice(toTy):
+				return ctx.newCoqCall("StringToBytes", args)
+			}
+			ctx.unsupported(call, "conversion from type %v to %v",
+				ctx.typeOf(args[0]), ctx.typeOf(call.Fun))
+			return coq.CallExpr{}
+		}
 		// a different type conversion, which is a noop in GooseLang (which is
 		// untyped)
 		// TODO: handle integer conversions here, checking if call.Fun is an integer
